@@ -243,6 +243,7 @@ func TestExhaustive(t *testing.T) {
 // the pools contain, besides ordinary segments, the words the implementation uses internally as trie keys (":param",
 // ":any", method tags): a collision between the literal and the internal namespaces must not be reachable from a request
 var litPool = []string{"a", "b", "ab", "a.b", "*x", "%2F", "static", "favicon.ico", "c", "x", "get", ":", "é", "a b", "**", "A", "a-rather-long-literal-segment-0123456789"}
+
 // (names that differ only in letter case, or fold to the same letter, are different names)
 var paramPool = []string{":x", ":y", ":id", ":", ":x", ":X", ":ID", ":Id", ":Y", ":k", ":\u212a"}
 var methodPool = append(append([]string{}, rm.Methods...), "*", "*", "GET", "GET", "POST")
